@@ -34,6 +34,8 @@ CONSTANTS Targets,     \* target names (strings)
           InFiles,     \* [Targets -> set of input file names]
           GlobT,       \* targets whose inputs are declared by a glob (absent files are not inputs)
           CheckT,      \* targets with an output check on an external condition
+          ToolT,       \* targets whose command relies on an undeclared tool that may break (ext[t] = TRUE: broken): the same
+                       \* command, with the same cache key, then exits 0 without producing its declared output
           CmdMenu,     \* command versions EditCmd may choose from
           Acts,        \* enabled history actions
           Modes,       \* load_outputs modes builds may use
@@ -105,7 +107,7 @@ ExecTarget(s, f, a, p, cacheOn, st, t, k, why) ==
   IN
   IF c \in {"fail", "slow"} \/ ~depsOK
     THEN [st1 EXCEPT !.failed = @ \cup {t}, !.dec[t] = "exec-fail"]
-  ELSE IF c = "omit" /\ HasOutputs(t)
+  ELSE IF (c = "omit" \/ (t \in ToolT /\ st.ext[t])) /\ HasOutputs(t)
     THEN [st1 EXCEPT !.failed = @ \cup {t}, !.dec[t] = "exec-fail", !.ws[t] = Absent]
   ELSE
     \* "noest" leaves the checked condition as it is, "unest" destroys it, every other command establishes it
@@ -185,7 +187,7 @@ Init ==
   /\ ws = NoWs /\ ext = NoExt /\ results = <<>> /\ blobs = {} /\ taint = {}
   /\ steps = 0 /\ last = NoBuild /\ trail = <<>>
 
-Summary(l) == [kind |-> l.kind, t |-> IF l.kind \in {"edit", "taint", "perturb", "breakext", "dropblob"} THEN l.t ELSE "",
+Summary(l) == [kind |-> l.kind, t |-> IF l.kind \in {"edit", "taint", "perturb", "breakext", "breaktool", "dropblob"} THEN l.t ELSE "",
                full |-> l.kind = "build" /\ l.ok /\ l.cacheOn /\ l.mode = "all" /\ l.sel = Targets]
 Step == /\ steps < MaxSteps /\ steps' = steps + 1
         /\ trail' = IF Len(trail) < 2 THEN Append(trail, Summary(last)) ELSE <<trail[2], Summary(last)>>
@@ -272,6 +274,11 @@ BreakExt(t) ==
   /\ "BreakExt" \in Acts /\ Step /\ t \in CheckT /\ ext[t]
   /\ ext' = [ext EXCEPT ![t] = FALSE] /\ last' = [kind |-> "breakext", t |-> t]
   /\ UNCHANGED <<src, files, alias, platform, ws, results, blobs, taint>>
+\* the undeclared tool a command relies on breaks (nothing the cache key covers changes)
+BreakTool(t) ==
+  /\ "BreakTool" \in Acts /\ Step /\ t \in ToolT /\ ~ext[t]
+  /\ ext' = [ext EXCEPT ![t] = TRUE] /\ last' = [kind |-> "breaktool", t |-> t]
+  /\ UNCHANGED <<src, files, alias, platform, ws, results, blobs, taint>>
 \* a blob disappears from the cache (the value currently recorded for t)
 DropBlob(t) ==
   /\ "DropBlob" \in Acts /\ Step /\ HasOutputs(t) /\ IsValue(ws[t]) /\ ws[t] \in blobs
@@ -301,7 +308,7 @@ Next ==
   \/ \E t \in Targets :
        \/ \E n \in InFiles[t], c \in {"c0", "c1", "absent"} : EditInput(t, n, c)
        \/ \E c \in CmdMenu : EditCmd(t, c)
-       \/ EditShift(t) \/ EditSwap(t) \/ EditFingerprint(t) \/ EditOutputs(t) \/ ToggleNoCache(t) \/ Taint(t) \/ BreakExt(t) \/ DropBlob(t)
+       \/ BreakTool(t) \/ EditShift(t) \/ EditSwap(t) \/ EditFingerprint(t) \/ EditOutputs(t) \/ ToggleNoCache(t) \/ Taint(t) \/ BreakExt(t) \/ DropBlob(t)
        \/ \E how \in {"delete", "modify", "parent", "stale", "notdir"} : Perturb(t, how)
   \/ \E x \in Aliases, t \in Targets : Retarget(x, t)
   \/ ChangePlatform \/ Relocate \/ TaintAll \/ CorruptResults
